@@ -20,6 +20,7 @@ import (
 	"runtime/debug"
 	"sort"
 	"strconv"
+	"strings"
 	"sync"
 	"sync/atomic"
 	"testing/synctest"
@@ -79,36 +80,147 @@ type Sim struct {
 	OvertakeBudget time.Duration // total simulated time the scheduler may spend letting timers overtake
 	roots          int
 	Log            func(format string, a ...any)
+	rtBase         uint64 // base of the runtime random source for this run
+	skew           atomic.Int64
+	holder         atomic.Int64 // goid of the goroutine that was granted the baton and has not parked since
+	Resumes        int64        // goroutines that woke from a blocking call the instrumenter does not see and re-queued
 
-	// preemption plan: visits of simrt.Preempt points are counted; every so often (random gap with the
-	// given mean, drawn from its own generator) the visiting goroutine parks as at a Yield
-	preemptMean int64
-	preemptCtr  atomic.Int64
-	preemptNext atomic.Int64
-	prng        uint64
+	// preemption plan: visits of simrt.Preempt points are counted per site; a visit becomes a scheduling point
+	// (the goroutine parks as at a Yield) when hash(seed, site, visit number) selects it - on average one
+	// visit in preemptMean. Counting per site keeps the plan stable when an unrelated site is visited a
+	// varying number of times (qryn ranges over Go maps, whose order the simulator does not control).
+	preemptMean uint64
+	pseed       uint64
+	pmu         sync.Mutex
+	psites      map[string]*psite
 	Preempts    int64
+}
+
+type psite struct {
+	h uint64
+	n uint64
+}
+
+// debugging aid: VERIF_PREEMPT_TRACE=<file> accumulates visit counts per preemption point
+var (
+	ptFile    = os.Getenv("VERIF_PREEMPT_TRACE")
+	ptOnly, _ = strconv.Atoi(os.Getenv("VERIF_PREEMPT_RUN")) // 1-based run whose events are kept in full (0: the first 3M events)
+	ptMu      sync.Mutex
+	ptCounts  = map[string]int{}
+	ptSeq     []string
+	ptRuns    []string
+	ptRunNo   int
+	ptHash    uint64
+	ptEvents  int
+)
+
+// ptLog records one event of the debugging trace (caller holds no lock).
+func ptLog(ev string) {
+	ptMu.Lock()
+	for i := 0; i < len(ev); i++ {
+		ptHash = (ptHash ^ uint64(ev[i])) * 1099511628211
+	}
+	ptEvents++
+	if (ptOnly == 0 && len(ptSeq) < 3000000) || (ptOnly > 0 && ptRunNo == ptOnly && len(ptSeq) < 20000000) {
+		ptSeq = append(ptSeq, ev)
+	}
+	ptMu.Unlock()
+}
+
+func dumpPreemptTrace() {
+	if ptFile == "" {
+		return
+	}
+	ptMu.Lock()
+	defer ptMu.Unlock()
+	keys := make([]string, 0, len(ptCounts))
+	for k := range ptCounts {
+		keys = append(keys, k)
+	}
+	sort.Strings(keys)
+	var b strings.Builder
+	for _, k := range keys {
+		fmt.Fprintf(&b, "%s %d\n", k, ptCounts[k])
+	}
+	os.WriteFile(ptFile, []byte(b.String()), 0o644)
+	ptRuns = append(ptRuns, fmt.Sprintf("run %d events=%d hash=%x", ptRunNo, ptEvents, ptHash))
+	os.WriteFile(ptFile+".seq", []byte(strings.Join(ptSeq, "\n")), 0o644)
+	os.WriteFile(ptFile+".runs", []byte(strings.Join(ptRuns, "\n")), 0o644)
 }
 
 // SetPreempt enables preemption between synchronisation operations: on average one in mean visited
 // preemption points becomes a scheduling point. Call before spawning goroutines; 0 disables.
 func (s *Sim) SetPreempt(mean int64, seed uint64) {
-	s.preemptMean = mean
-	s.prng = seed*0x9E3779B97F4A7C15 + 0x1234567
-	if s.prng == 0 {
-		s.prng = 1
+	if mean <= 0 {
+		return
 	}
-	s.preemptNext.Store(1 + int64(s.prng>>40)%(mean+1))
+	s.preemptMean = uint64(mean)
+	s.pseed = seed*0x9E3779B97F4A7C15 + 0x1234567
+	s.psites = map[string]*psite{}
+}
+
+// Skew returns a small (< 1 µs) offset, different on every call within a run, that the harness adds to each of
+// its own timers: two timers that expire at the same simulated instant fire in an order only the Go runtime
+// decides, so the harness never creates such a tie itself.
+func Skew() time.Duration {
+	s := cur.Load()
+	if s == nil {
+		return 0
+	}
+	n := s.skew.Add(1)
+	return time.Duration((n*37)%997 + 1)
 }
 
 // Preempt is a possible preemption point (function entry, loop body) in code that performs no
-// synchronisation: unless the run's preemption plan selects this visit it costs a counter increment.
+// synchronisation: unless the run's preemption plan selects this visit it costs a map lookup.
 func Preempt(site string) {
 	s := cur.Load()
-	if s == nil || s.preemptMean == 0 {
+	if s == nil {
 		return
 	}
-	n := s.preemptCtr.Add(1)
-	if n < s.preemptNext.Load() || s.killed.Load() {
+	if ptFile != "" {
+		ptMu.Lock()
+		ptCounts[site]++
+		ptMu.Unlock()
+		ptLog(site)
+	}
+	if RuntimeSeeded {
+		// baton discipline: a managed goroutine that woke from a blocking call the instrumenter does not see
+		// (a sleep inside a library, a timer callback) runs without a grant; the order in which several of them
+		// wake at one simulated instant is the Go runtime's. It queues here, before it touches qryn's state,
+		// and the scheduler decides.
+		if id := fastGoid(); s.holder.Load() != id && !s.killed.Load() {
+			s.mu.Lock()
+			g := s.gs[id]
+			s.mu.Unlock()
+			if g != nil && !g.dying {
+				s.mu.Lock()
+				s.Resumes++
+				s.mu.Unlock()
+				s.park(g, "resume:"+site, nil)
+			}
+		}
+	}
+	if s.preemptMean == 0 {
+		return
+	}
+	s.pmu.Lock()
+	ps := s.psites[site]
+	if ps == nil {
+		h := s.pseed
+		for i := 0; i < len(site); i++ {
+			h = (h ^ uint64(site[i])) * 1099511628211
+		}
+		ps = &psite{h: h}
+		s.psites[site] = ps
+	}
+	ps.n++
+	x := ps.h + ps.n*0x9E3779B97F4A7C15
+	s.pmu.Unlock()
+	x ^= x >> 31
+	x *= 0xBF58476D1CE4E5B9
+	x ^= x >> 29
+	if x%s.preemptMean != 0 || s.killed.Load() {
 		return
 	}
 	g := s.self()
@@ -116,10 +228,6 @@ func Preempt(site string) {
 		return
 	}
 	s.mu.Lock()
-	s.prng ^= s.prng << 13
-	s.prng ^= s.prng >> 7
-	s.prng ^= s.prng << 17
-	s.preemptNext.Store(n + 1 + int64(s.prng>>11)%(2*s.preemptMean))
 	s.Preempts++
 	s.mu.Unlock()
 	s.park(g, "preempt:"+site, nil)
@@ -137,12 +245,24 @@ func New(tape []byte, seed uint64) *Sim {
 		stopped: make(chan struct{}), MaxSpin: 200000, lastAdvance: time.Now(), OvertakeBudget: 3 * time.Second}
 	h := fnv.New64a()
 	s.trace = h.Sum64()
+	// the runtime's own randomness is part of the schedule: derived from the tape and the seed
+	h.Write(tape)
+	s.rtBase = h.Sum64() ^ (seed * 0x9E3779B97F4A7C15)
+	SeedRuntime(s.rtBase)
+	if ptFile != "" {
+		ptMu.Lock()
+		ptRunNo++
+		ptHash, ptEvents = 14695981039346656037, 0
+		ptMu.Unlock()
+	}
 	cur.Store(s)
 	go s.loop()
 	return s
 }
 
-func goid() int64 {
+func goid() int64 { return fastGoid() }
+
+func slowGoid() int64 {
 	var buf [64]byte
 	n := runtime.Stack(buf[:], false)
 	// "goroutine 123 ["
@@ -255,11 +375,22 @@ func (s *Sim) loop() {
 			s.Multi++
 		}
 		g := cands[int(x)%len(cands)]
+		if ptFile != "" {
+			var b strings.Builder
+			for _, c := range cands {
+				b.WriteString(c.ID + "@" + c.site + " ")
+			}
+			ptLog(fmt.Sprintf("SCHED x=%d pick=%s now=%d cands=%s", x, g.ID, time.Now().UnixNano(), b.String()))
+		}
 		s.mu.Lock()
 		g.parked = false
 		s.Steps++
 		s.mix(g.Role, g.site)
 		s.mu.Unlock()
+		s.holder.Store(g.goid)
+		// the runtime's random source restarts at every grant: a draw the simulator does not see (a new OS
+		// thread seeding itself) then shifts the sequence for one slice, not for the rest of the run
+		SeedRuntime(s.rtBase + uint64(s.Steps)*0xD1B54A32D192ED03)
 		select {
 		case g.grant <- struct{}{}:
 		case <-s.kill:
@@ -285,6 +416,7 @@ func (s *Sim) Killed() <-chan struct{} { return s.kill }
 
 // Close kills the simulation and detaches it.
 func (s *Sim) Close() {
+	dumpPreemptTrace()
 	s.Kill()
 	cur.CompareAndSwap(s, nil)
 }
@@ -297,6 +429,7 @@ func (s *Sim) park(g *G, site string, waitOn any) {
 		g.dying = true
 		runtime.Goexit()
 	}
+	s.holder.CompareAndSwap(g.goid, 0)
 	s.mu.Lock()
 	g.site = site
 	g.parked = true
@@ -342,6 +475,7 @@ func (s *Sim) spawn(parent *G, id, role string, f func()) *G {
 			s.mu.Lock()
 			g.exited = true
 			g.parked = false
+			s.holder.CompareAndSwap(g.goid, 0)
 			delete(s.gs, g.goid)
 			if r != nil {
 				s.Crashes = append(s.Crashes, Crash{Goroutine: g.ID, Role: g.Role, Value: fmt.Sprint(r), Stack: string(debug.Stack())})
